@@ -12,12 +12,19 @@
    the first refutation (a parenthesis inside a bracket class) and the second (an open bracket that ends a class range)
    are the defect of the crate repaired by 4f24679 (corpus/C08/witness_paren_in_class.json, witness_range_end_bracket.json);
    both are gone (rx_old_witnesses_gone, range_end_bracket_fixed, fixed_cut_in_class).
+   A second artefact of the same kind: RIO.Rx has no set operators inside classes, so it reads "--" as range material
+   where the regex crate (and the scanner) read the difference operator followed by a nested class
+   (rx_reduction_lemma_no_prop_refuted, rx_full_law_no_prop_refuted; checked against the real crate: it agrees with the
+   scanner).  Proved on the way to the full law: the parser reads only what it consumes plus one character of lookahead
+   (rx_parser_context_replacement), and a group that is parsed as one atom inside a pattern parses in isolation
+   (rx_tok_context_isolated); the scanner / parser agreement induction itself is not done (bounded evidence:
+   bounded_agreement).
    The law holds exactly as stated once every token of the
    pattern parses in isolation ([tok_parses], executable); this strengthens ONE hypothesis of the theorems:
    the shape of dynamic patterns, [shape_c re]  ~>  [shape_x re]  (= shape_c + forallb tok_parses). *)
 Require Import RIO.Base RIO.Prefix RIO.Route RIO.Layer RIO.Tree RIO.TreeProofs RIO.TreeInst RIO.TreeReplace RIO.Matchers RIO.MatcherSpec
                RIO.RouterSpec RIO.RouterHist.
-Require Import RIO.Rx RIO.RxMatch RIO.RxParse RIO.RxToks RIO.RxGi RIO.RxLaws RIO.RxTreeInst RIO.RxGrammar RIO.RxBounded.
+Require Import RIO.Rx RIO.RxMatch RIO.RxParse RIO.RxToks RIO.RxGi RIO.RxLaws RIO.RxTreeInst RIO.RxGrammar RIO.RxBounded RIO.RxTrunc.
 Require RIO.LayerProofs RIO.PathProofs RIO.MatchersProofs RIO.HostProofs RIO.RouterProofs RIO.RxPathProofs RIO.RxMatchersProofs RIO.RxHostProofs RIO.RxRouterProofs.
 Close Scope N_scope.
 
@@ -319,12 +326,38 @@ Example model_artefact_property_name :
 Proof. cbv zeta. repeat split; vm_compute; reflexivity. Qed.
 
 (* ================================================================== what remains open, and the evidence *)
-(* With the final scanner the only disagreement found between prefix.rs and the parser of RIO.Rx is the name of a
-   \p / \P escape (an artefact of RIO.Rx: the regex crate rejects such names).  The full law under the side condition
-   [no_prop] (RIO.RxBounded) is a CONJECTURE; it is checked exhaustively on short patterns: *)
+(* The reduction lemma / the full law under [no_prop] ALONE are false for RIO.Rx: second artefact of its parser, which has
+   no set operators and no nested classes and reads  x--[  as an item followed by the range from minus to bracket.
+   q = x([(----[])|(]]) : for the scanner AND for regex 1.13.1 (checked: it compiles ^q$ as the literal x and one group
+   holding one class with a nested class) one group; for RIO.Rx an alternation at top level. *)
+Theorem rx_reduction_lemma_no_prop_refuted :
+  ~ (forall ts, toks_ok ts -> no_prop (render ts) = true -> rx_valid false (leaf_regex (render ts)) = true -> forallb tok_parses ts = true).
+Proof. exact reduction_lemma_no_prop_refuted. Qed.
+Theorem rx_full_law_no_prop_refuted :
+  ~ (forall ic ts k s, toks_ok ts -> no_prop (render ts) = true ->
+       ML rx_is_match ic (render ts) s = true -> MN rx_is_match ic (render (firstn k ts)) s = true).
+Proof. exact full_law_no_prop_refuted. Qed.
+
+(* CONJECTURE (see RIO.RxBounded): the full law under [no_prop] AND [no_dd] (no two consecutive minus signs).
+   Bounded evidence: *)
 Theorem bounded_agreement : search [40;41;91;93;45;94;92;97;124]%N 6 [] = None
-  /\ search [40;41;91;93;45;94;92;97;124;33;100;63;58]%N 5 [] = None.
-Proof. split; [exact bounded_agreement_6|exact bounded_agreement_5_wide]. Qed.
+  /\ search [40;41;91;93;45;94;92;97;124;33;100;63;58]%N 5 [] = None
+  /\ search_class [91;93;45;94;92;97;40;33]%N 6 [] = None.
+Proof. split; [exact bounded_agreement_6|split; [exact bounded_agreement_5_wide|exact bounded_class_agreement_6]]. Qed.
+
+(* First half of a proof, Qed-closed (RIO.RxTrunc): the parser reads exactly what it consumes plus one character.
+   A successful parse leaves a suffix, and what follows the consumed part can be replaced by anything with the same
+   first character ... *)
+Theorem rx_parser_context_replacement : forall F s gi r rest gi', parse_alt F s gi = Some (r, rest, gi') ->
+  exists u, s = u ++ rest /\ forall t, hd_error rest = hd_error t -> parse_alt F (u ++ t) gi = Some (r, t, gi').
+Proof. intros F. exact (proj1 (parse_repl F)). Qed.
+(* ... hence a group that the parser reads as one atom somewhere inside a pattern parses in isolation.  What is left
+   for the conjecture is the scanner / parser agreement proper: that in a valid pattern without \p and `--` the parser
+   does stop right after the closing parenthesis of every prefix.rs group. *)
+Theorem rx_tok_context_isolated : forall F (b : list N) ctx gi a g,
+  RxParse.atom_of (parse_alt F) (parse_class F) ch_lparen (b ++ ch_rparen :: ctx) gi = Some (a, ctx, g) ->
+  tok_atom gi (TGrp b) = Some (a, g).
+Proof. exact tok_context_isolated. Qed.
 
 (* ================================================================== the side condition on a grammar *)
 (* RIO.RxGrammar: group bodies generated by
@@ -419,7 +452,11 @@ Print Assumptions marker_vocabulary_parses.
 Print Assumptions fixed_cut_in_class.
 Print Assumptions fixed_cut_in_class_find.
 Print Assumptions model_artefact_property_name.
+Print Assumptions rx_reduction_lemma_no_prop_refuted.
+Print Assumptions rx_full_law_no_prop_refuted.
 Print Assumptions bounded_agreement.
+Print Assumptions rx_parser_context_replacement.
+Print Assumptions rx_tok_context_isolated.
 Print Assumptions grammar_tokens_ok.
 Print Assumptions grammar_shape_x.
 Print Assumptions grammar_prefix_law.
